@@ -27,12 +27,21 @@ pub struct Ctx<'g> {
 	pub duration_mode: &'static str,
 	/// how enum nodes are read: "str" | "u64"
 	pub enum_mode: &'static str,
+	/// which family of serde hints the target uses:
+	///  "default": the natural hint per node (unions as enums, records as structs, arrays as seqs);
+	///  "alt": what derived Rust types use otherwise - tuples of the known length for arrays, maps for records,
+	///         Option for [null, T] unions, owned string / byte_buf, enums read through `deserialize_enum` with a
+	///         variant list in REVERSED schema order (so that an index-based answer is observable);
+	///  "any": everything through `deserialize_any` (self-describing targets); unions are then transparent.
+	pub hints: &'static str,
+	/// expected value (when known): gives typed targets such as tuples their length
+	pub shape: Option<J>,
 	pub stats: RefCell<Stats>,
 }
 
 impl<'g> Ctx<'g> {
 	pub fn new(g: &'g SchemaMut) -> Self {
-		Ctx { g, input: (0, 0), ignore: vec![], duration_mode: "bytes", enum_mode: "str", stats: RefCell::new(Stats::default()) }
+		Ctx { g, input: (0, 0), ignore: vec![], duration_mode: "bytes", enum_mode: "str", hints: "default", shape: None, stats: RefCell::new(Stats::default()) }
 	}
 	fn note_borrowed(&self, ptr: *const u8, len: usize) {
 		let a = ptr as usize;
@@ -57,16 +66,24 @@ pub struct Cap<'c, 'g> {
 	pub ctx: &'c Ctx<'g>,
 	pub key: usize,
 	pub path: Vec<usize>,
+	/// the part of the expected value that corresponds to this node, if known
+	pub shape: Option<&'c J>,
 }
 
 impl<'c, 'g> Cap<'c, 'g> {
 	pub fn root(ctx: &'c Ctx<'g>) -> Self {
-		Cap { ctx, key: 0, path: vec![] }
+		Cap { ctx, key: 0, path: vec![], shape: ctx.shape.as_ref() }
 	}
 	fn child(&self, key: SchemaKey, step: usize) -> Cap<'c, 'g> {
+		self.child_shaped(key, step, None)
+	}
+	fn child_shaped(&self, key: SchemaKey, step: usize, shape: Option<&'c J>) -> Cap<'c, 'g> {
 		let mut path = self.path.clone();
 		path.push(step);
-		Cap { ctx: self.ctx, key: key.idx(), path }
+		Cap { ctx: self.ctx, key: key.idx(), path, shape }
+	}
+	fn shape_elems(&self) -> Option<&'c Vec<J>> {
+		self.shape.and_then(|s| s.get("es")).and_then(|e| e.as_array())
 	}
 	fn node(&self) -> Result<&'g SchemaNode, String> {
 		self.ctx.g.nodes().get(self.key).ok_or_else(|| format!("capture: key {} out of range", self.key))
@@ -85,6 +102,12 @@ impl<'de, 'c, 'g> DeserializeSeed<'de> for Cap<'c, 'g> {
 			return Ok(json!({"t": "ignored"}));
 		}
 		let node = self.node().map_err(de_err)?;
+		let hints = self.ctx.hints;
+		if hints == "any" {
+			// self-describing target: the schema is not consulted at all
+			return d.deserialize_any(AnyV { ctx: self.ctx });
+		}
+		let alt = hints == "alt";
 		match eff(node) {
 			Eff::Null => d.deserialize_unit(ScalarV { want: "unit", cap: &self }),
 			Eff::Boolean => d.deserialize_bool(ScalarV { want: "bool", cap: &self }),
@@ -92,24 +115,137 @@ impl<'de, 'c, 'g> DeserializeSeed<'de> for Cap<'c, 'g> {
 			Eff::LongLike => d.deserialize_i64(ScalarV { want: "i64", cap: &self }),
 			Eff::Float => d.deserialize_f32(ScalarV { want: "f32", cap: &self }),
 			Eff::Double => d.deserialize_f64(ScalarV { want: "f64", cap: &self }),
+			Eff::Bytes if alt => d.deserialize_byte_buf(ScalarV { want: "bytes", cap: &self }),
 			Eff::Bytes => d.deserialize_bytes(ScalarV { want: "bytes", cap: &self }),
+			Eff::StringLike if alt => d.deserialize_string(ScalarV { want: "str", cap: &self }),
 			Eff::StringLike => d.deserialize_str(ScalarV { want: "str", cap: &self }),
+			Eff::Fixed if alt => d.deserialize_bytes(ScalarV { want: "fix", cap: &self }),
 			Eff::Fixed => d.deserialize_any(ScalarV { want: "fix", cap: &self }),
+			Eff::Duration if alt => d.deserialize_tuple(3, DurationV { cap: &self }),
 			Eff::Duration => match self.ctx.duration_mode {
 				"map" => d.deserialize_map(DurationV { cap: &self }),
 				"seq" => d.deserialize_tuple(3, DurationV { cap: &self }),
 				_ => d.deserialize_bytes(ScalarV { want: "dur", cap: &self }),
 			},
+			Eff::Enum if alt => d.deserialize_enum("E", &[], RustEnumV { cap: &self }),
 			Eff::Enum => match self.ctx.enum_mode {
 				"u64" => d.deserialize_u64(ScalarV { want: "enum_u64", cap: &self }),
 				_ => d.deserialize_any(ScalarV { want: "enum", cap: &self }),
 			},
 			Eff::DecimalBytes | Eff::DecimalFixed | Eff::BigDecimal => d.deserialize_any(ScalarV { want: "dec", cap: &self }),
+			Eff::Array if alt => match self.shape_elems() {
+				Some(es) => d.deserialize_tuple(es.len(), ArrayV { cap: &self }),
+				None => d.deserialize_seq(ArrayV { cap: &self }),
+			},
 			Eff::Array => d.deserialize_seq(ArrayV { cap: &self }),
 			Eff::Map => d.deserialize_map(MapV { cap: &self }),
+			Eff::Record if alt => d.deserialize_map(RecordV { cap: &self }),
 			Eff::Record => d.deserialize_struct("", &[], RecordV { cap: &self }),
+			Eff::Union if alt && self.is_option_union() => d.deserialize_option(OptionV { cap: &self }),
 			Eff::Union => d.deserialize_enum("", &[], UnionV { cap: &self }),
 		}
+	}
+}
+
+impl<'c, 'g> Cap<'c, 'g> {
+	/// a union of exactly two branches one of which is null: what `Option<T>` is used for
+	fn is_option_union(&self) -> bool {
+		match self.node().map(|n| &n.type_) {
+			Ok(RegularType::Union(u)) if u.variants.len() == 2 => u
+				.variants
+				.iter()
+				.filter(|k| self.ctx.g.nodes().get(k.idx()).map_or(false, |n| eff(n) == Eff::Null))
+				.count() == 1,
+			_ => false,
+		}
+	}
+}
+
+/// `Option<T>` for a [null, T] / [T, null] union
+struct OptionV<'a, 'c, 'g> {
+	cap: &'a Cap<'c, 'g>,
+}
+impl<'de, 'a, 'c, 'g> Visitor<'de> for OptionV<'a, 'c, 'g> {
+	type Value = J;
+	fn expecting(&self, f: &mut fmt::Formatter) -> fmt::Result {
+		write!(f, "CAPTURE-MISMATCH: an option")
+	}
+	fn visit_none<E: de::Error>(self) -> Result<J, E> {
+		let (null_idx, _) = self.branches().map_err(de_err)?;
+		Ok(json!({"t": "un", "b": null_idx, "x": {"t": "null"}}))
+	}
+	fn visit_unit<E: de::Error>(self) -> Result<J, E> {
+		self.visit_none()
+	}
+	fn visit_some<D: Deserializer<'de>>(self, d: D) -> Result<J, D::Error> {
+		let (_, (other_idx, other_key)) = self.branches().map_err(de_err)?;
+		let shape = self.cap.shape.and_then(|s| s.get("x"));
+		let v = self.cap.child_shaped(other_key, other_idx, shape).deserialize(d)?;
+		Ok(json!({"t": "un", "b": other_idx, "x": v}))
+	}
+}
+impl<'a, 'c, 'g> OptionV<'a, 'c, 'g> {
+	fn branches(&self) -> Result<(usize, (usize, SchemaKey)), String> {
+		let node = self.cap.node()?;
+		let variants = match &node.type_ {
+			RegularType::Union(u) => &u.variants,
+			_ => return Err("option capture on non-union".into()),
+		};
+		let is_null = |k: &SchemaKey| self.cap.ctx.g.nodes().get(k.idx()).map_or(false, |n| eff(n) == Eff::Null);
+		let null_idx = variants.iter().position(is_null).ok_or("no null branch")?;
+		let other_idx = 1 - null_idx;
+		Ok((null_idx, (other_idx, variants[other_idx])))
+	}
+}
+
+/// a Rust unit-only enum whose variants are declared in REVERSED schema order, read the way serde-derived
+/// enums are: the variant identifier may arrive as a string (matched by name) or as an index (declaration order).
+struct RustEnumV<'a, 'c, 'g> {
+	cap: &'a Cap<'c, 'g>,
+}
+impl<'de, 'a, 'c, 'g> Visitor<'de> for RustEnumV<'a, 'c, 'g> {
+	type Value = J;
+	fn expecting(&self, f: &mut fmt::Formatter) -> fmt::Result {
+		write!(f, "CAPTURE-MISMATCH: an enum")
+	}
+	fn visit_enum<A: EnumAccess<'de>>(self, a: A) -> Result<J, A::Error> {
+		let node = self.cap.node().map_err(de_err)?;
+		let symbols = match &node.type_ {
+			RegularType::Enum(e) => &e.symbols,
+			_ => return Err(de_err("enum capture on non-enum")),
+		};
+		struct Ident<'s>(&'s [String]);
+		impl<'de, 's> DeserializeSeed<'de> for Ident<'s> {
+			type Value = usize;
+			fn deserialize<D: Deserializer<'de>>(self, d: D) -> Result<usize, D::Error> {
+				struct IV<'s>(&'s [String]);
+				impl<'de, 's> Visitor<'de> for IV<'s> {
+					type Value = usize;
+					fn expecting(&self, f: &mut fmt::Formatter) -> fmt::Result {
+						write!(f, "CAPTURE-MISMATCH: variant identifier")
+					}
+					fn visit_str<E: de::Error>(self, v: &str) -> Result<usize, E> {
+						self.0.iter().position(|s| s == v).ok_or_else(|| de_err(format!("unknown variant {v:?}")))
+					}
+					fn visit_bytes<E: de::Error>(self, v: &[u8]) -> Result<usize, E> {
+						self.0.iter().position(|s| s.as_bytes() == v).ok_or_else(|| de_err("unknown variant (bytes)"))
+					}
+					fn visit_u64<E: de::Error>(self, v: u64) -> Result<usize, E> {
+						// declaration order is the reverse of the schema order
+						let n = self.0.len() as u64;
+						if v < n {
+							Ok((n - 1 - v) as usize)
+						} else {
+							Err(de_err(format!("variant index {v} out of range")))
+						}
+					}
+				}
+				d.deserialize_identifier(IV(self.0))
+			}
+		}
+		let (idx, access) = a.variant_seed(Ident(symbols))?;
+		access.unit_variant()?;
+		Ok(json!({"t": "enum", "i": idx}))
 	}
 }
 
@@ -289,8 +425,13 @@ impl<'de, 'a, 'c, 'g> Visitor<'de> for ArrayV<'a, 'c, 'g> {
 		};
 		let mut out = Vec::new();
 		// every element takes step 0: ignore paths address "all elements"
-		while let Some(v) = s.next_element_seed(self.cap.child(items, 0))? {
-			out.push(v);
+		let shapes = self.cap.shape_elems();
+		loop {
+			let shape = shapes.and_then(|es| es.get(out.len()));
+			match s.next_element_seed(self.cap.child_shaped(items, 0, shape))? {
+				Some(v) => out.push(v),
+				None => break,
+			}
 		}
 		Ok(json!({"t": "arr", "es": out}))
 	}
@@ -337,7 +478,8 @@ impl<'de, 'a, 'c, 'g> Visitor<'de> for MapV<'a, 'c, 'g> {
 		};
 		let mut out = Vec::new();
 		while let Some(k) = m.next_key_seed(KeySeed { ctx: self.cap.ctx })? {
-			let v = m.next_value_seed(self.cap.child(values, 0))?;
+			let shape = self.cap.shape.and_then(|s| s.get("kv")).and_then(|kv| kv.get(out.len())).and_then(|e| e.get(1));
+			let v = m.next_value_seed(self.cap.child_shaped(values, 0, shape))?;
 			out.push(json!([k, v]));
 		}
 		Ok(json!({"t": "map", "kv": out}))
@@ -365,7 +507,8 @@ impl<'de, 'a, 'c, 'g> Visitor<'de> for RecordV<'a, 'c, 'g> {
 			if f.name != k {
 				return Err(de_err(format!("record field {i} announced as {k:?}, schema says {:?}", f.name)));
 			}
-			out.push(m.next_value_seed(self.cap.child(f.type_, i))?);
+			let shape = self.cap.shape_elems().and_then(|es| es.get(i));
+			out.push(m.next_value_seed(self.cap.child_shaped(f.type_, i, shape))?);
 			i += 1;
 		}
 		if i != fields.len() {
@@ -401,7 +544,84 @@ impl<'de, 'a, 'c, 'g> Visitor<'de> for UnionV<'a, 'c, 'g> {
 			return Err(de_err(format!("union branch announced as {name:?} matches {} branches", matching.len())));
 		}
 		let b = matching[0];
-		let v = access.newtype_variant_seed(self.cap.child(variants[b], b))?;
+		let shape = self.cap.shape.and_then(|s| s.get("x"));
+		let v = access.newtype_variant_seed(self.cap.child_shaped(variants[b], b, shape))?;
 		Ok(json!({"t": "un", "b": b, "x": v}))
+	}
+}
+
+/// A self-describing target (what `serde_json::Value`-like types do): records whatever `deserialize_any` shows.
+/// Output: null / bool / int (i32) / long (i64) / u32 / u64 / f32 / f64 / str / bytes / arr / map (keys as byte arrays).
+pub struct AnyV<'c, 'g> {
+	pub ctx: &'c Ctx<'g>,
+}
+impl<'de, 'c, 'g> DeserializeSeed<'de> for AnyV<'c, 'g> {
+	type Value = J;
+	fn deserialize<D: Deserializer<'de>>(self, d: D) -> Result<J, D::Error> {
+		d.deserialize_any(self)
+	}
+}
+impl<'de, 'c, 'g> Visitor<'de> for AnyV<'c, 'g> {
+	type Value = J;
+	fn expecting(&self, f: &mut fmt::Formatter) -> fmt::Result {
+		write!(f, "CAPTURE-MISMATCH: anything")
+	}
+	fn visit_unit<E: de::Error>(self) -> Result<J, E> {
+		Ok(json!({"t": "null"}))
+	}
+	fn visit_none<E: de::Error>(self) -> Result<J, E> {
+		Ok(json!({"t": "null"}))
+	}
+	fn visit_bool<E: de::Error>(self, v: bool) -> Result<J, E> {
+		Ok(json!({"t": "bool", "i": v as u8}))
+	}
+	fn visit_i32<E: de::Error>(self, v: i32) -> Result<J, E> {
+		Ok(json!({"t": "int", "v": limbs_i64(v as i64)}))
+	}
+	fn visit_i64<E: de::Error>(self, v: i64) -> Result<J, E> {
+		Ok(json!({"t": "long", "v": limbs_i64(v)}))
+	}
+	fn visit_u32<E: de::Error>(self, v: u32) -> Result<J, E> {
+		Ok(json!({"t": "u32", "v": limbs_i64(v as i64)}))
+	}
+	fn visit_u64<E: de::Error>(self, v: u64) -> Result<J, E> {
+		Ok(json!({"t": "u64", "v": limbs_i64(v as i64)}))
+	}
+	fn visit_f32<E: de::Error>(self, v: f32) -> Result<J, E> {
+		Ok(json!({"t": "f32", "v": bytes_json(&v.to_le_bytes())}))
+	}
+	fn visit_f64<E: de::Error>(self, v: f64) -> Result<J, E> {
+		Ok(json!({"t": "f64", "v": bytes_json(&v.to_le_bytes())}))
+	}
+	fn visit_str<E: de::Error>(self, v: &str) -> Result<J, E> {
+		self.ctx.note_copied();
+		Ok(json!({"t": "str", "v": bytes_json(v.as_bytes())}))
+	}
+	fn visit_borrowed_str<E: de::Error>(self, v: &'de str) -> Result<J, E> {
+		self.ctx.note_borrowed(v.as_ptr(), v.len());
+		Ok(json!({"t": "str", "v": bytes_json(v.as_bytes())}))
+	}
+	fn visit_bytes<E: de::Error>(self, v: &[u8]) -> Result<J, E> {
+		self.ctx.note_copied();
+		Ok(json!({"t": "bytes", "v": bytes_json(v)}))
+	}
+	fn visit_borrowed_bytes<E: de::Error>(self, v: &'de [u8]) -> Result<J, E> {
+		self.ctx.note_borrowed(v.as_ptr(), v.len());
+		Ok(json!({"t": "bytes", "v": bytes_json(v)}))
+	}
+	fn visit_seq<A: SeqAccess<'de>>(self, mut s: A) -> Result<J, A::Error> {
+		let mut out = Vec::new();
+		while let Some(v) = s.next_element_seed(AnyV { ctx: self.ctx })? {
+			out.push(v);
+		}
+		Ok(json!({"t": "arr", "es": out}))
+	}
+	fn visit_map<A: MapAccess<'de>>(self, mut m: A) -> Result<J, A::Error> {
+		let mut out = Vec::new();
+		while let Some(k) = m.next_key_seed(KeySeed { ctx: self.ctx })? {
+			let v = m.next_value_seed(AnyV { ctx: self.ctx })?;
+			out.push(json!([k, v]));
+		}
+		Ok(json!({"t": "map", "kv": out}))
 	}
 }
